@@ -20,7 +20,10 @@ CLAIMED = {
         "operations, and computes the denotation (shape, kind, values) of the result in NdArray.tla; each behaviour is replayed "
         "into dask_array under the chunk grids of its source and the computed values, shape, dtype and advertised shape/dtype are "
         "compared with the denotation (NumPy runs the same program as a second oracle: spec != NumPy is a machinery error). "
-        "The corpora do not depend on the seed. Compositions deeper than one operation are not claimed by this check.",
+        "Added families (last collection compared): cumsum / cumprod and reductions over 9..33 unit blocks (Blelloch levels, deep "
+        "reduction trees), two einsum patterns, joins of two elementwise branches, map_overlap stencils under the five boundary "
+        "kinds, indices with two or three new axes, advanced indices, diagonals, plain map_blocks. "
+        "The corpora do not depend on the seed. General compositions are claimed by C02 / C08, not here.",
         "Trusted: TLC, NdArray.tla (cross-checked against NumPy on every behaviour), harness/replay.py. Known findings F11-F15 "
         "(pad wrap wider than the axis, repeat/sliding_window_view/min/max on arrays with a zero-length axis, argmax(axis=None) "
         "ties) are reported as KNOWN-FINDING. Binding negative control: flip replaced by identity must be detected.",
@@ -97,11 +100,15 @@ CLAIMED = {
         "Naming.tla identity relation; TLC-enumerated programs built here, built again, cloudpickled, and rebuilt / unpickled in "
         "fresh interpreters with another hash seed; identity records validated by TLC (Naming.IdentityVerdict)",
         "A deterministic stride of the corpora (NumPy sources, seeded random arrays of both generator kinds, rechunk specs, "
-        "reductions, two-operation programs): per program five identity records - built, built again in the same process, pickle "
+        "reductions, two-operation programs, nodes with two fusable dependencies (Join), einsum patterns that pick index letters "
+        "while parsing, map_blocks with a harness function / an importable NumPy function / a wrapper borrowing its identity): per "
+        "program five identity records - built, built again in the same process, pickle "
         "round trip in the same process, built in a fresh interpreter started with PYTHONHASHSEED=4242, unpickled in that "
         "interpreter - each with the collection name, `__dask_keys__()`, the optimized graph's key set, "
-        "`__frisky_output_keys__()`, chunks, dtype and a fingerprint of the computed values; TLC requires all to equal the first.",
-        "Untokenizable sources are not generated; einsum is not modelled.",
+        "`__frisky_output_keys__()`, chunks, dtype and a fingerprint of the computed values; TLC requires all to equal the first.  Between "
+        "the two in-process builds an unrelated history step runs (the genuine numpy.round used as a block function elsewhere).",
+        "Untokenizable sources are not generated. Fixed: hash-seed dependent fused layer names (fix: 6910e2c) and einsum names "
+        "(fix: bfb6d0d), both found by this check.",
         "DESIGN.md §4 C07, §9",
     ),
     "C08": (
@@ -125,10 +132,14 @@ CLAIMED = {
         "alive (singleton registry, lowering cache); each program is built under configuration A, computed through the kept object "
         "under B and again under A (A, B round-robin over the 384-element product of optimize-graph, rechunk threshold / "
         "degree-limit / method, chunk-size, unify policy / limit, split_every), and an earlier collection of the process is computed "
-        "again later.  TLC compares all observations of a collection with each other; observations that agree with each other but "
+        "again later.  Every third program has its LAST operation constructed under B as well, the directed family 'operands on "
+        "different grids ; elemwise ; reduction / scan / index' runs under every ordered pair of unification policies, .chunks / "
+        ".dtype are evaluated right after construction (cached under the configuration in effect then), and a sibling collection of "
+        "the same program is computed before and after the last one (in-place and masked-ufunc histories included).  TLC compares all observations of a collection with each other; observations that agree with each other but "
         "not with the denotation are replayed alone in a fresh interpreter and TLC compares the in-history value with the fresh one.",
         "Known finding F26 (lowering cache serves the unification of another policy for a tensordot of two views of one source) is "
-        "reported as KNOWN-FINDING from its witness history. Configurations are assigned round-robin, not as a full product per program.",
+        "reported as KNOWN-FINDING from its witness history, F36 (the unification policy is read when an elementwise expression's "
+        "chunks are first evaluated and again when it is lowered) from the directed family. Configurations are assigned round-robin, not as a full product per program.",
         "DESIGN.md §4 C09, §9",
     ),
     "C10": (
